@@ -2677,6 +2677,13 @@ bool BW_MidiSequencer::parseCMF(FileAndMemReader &fr)
     uint64_t mus_start = readLEint(headerBuf + 8, 2);
     //unsigned deltas    = ReadLEint(HeaderBuf+10, 2);
     uint64_t ticks     = readLEint(headerBuf + 12, 2);
+    if(ticks == 0)
+    {
+        // The time base would get a zero denominator (division by zero at the next tempo event)
+        fr.close();
+        m_errorString = "CMF with zero ticks per second!";
+        return false;
+    }
     // Read title, author, remarks start offsets in file
     fsize = fr.read(headerBuf, 1, 6);
     if(fsize < 6)
